@@ -80,3 +80,25 @@ Lemma need_expand_excluded lib sel name l :
   not_expand_names sel = Some l -> in_names name l = true -> need_expand lib sel name = false.
 Proof. intros H1 H2. rewrite need_expand_spec. destruct (find_tpl lib name); [|reflexivity].
   rewrite H1. cbn [opt_mem]. rewrite H2. reflexivity. Qed.
+
+(** * nowiki cookies are never looked into *)
+Section NowikiInert.
+  Variable pfnames : list str.
+  Variable lib : list tpl.
+  Variable opts : options.
+
+  Lemma expand_recurse_nw f stk ea c rest :
+    expand_recurse pfnames lib opts (S f) stk ea (Nw c :: rest) =
+    option_map (cons (Nw c)) (expand_recurse pfnames lib opts f stk ea rest).
+  Proof. cbn [expand_recurse]. destruct (expand_recurse pfnames lib opts f stk ea rest); reflexivity. Qed.
+
+  Lemma expand_args_nw f stk am c rest :
+    expand_args pfnames lib opts (S f) stk am (Nw c :: rest) =
+    option_map (cons (Nw c)) (expand_args pfnames lib opts f stk am rest).
+  Proof. cbn [expand_args]. destruct (expand_args pfnames lib opts f stk am rest); reflexivity. Qed.
+End NowikiInert.
+
+Lemma finalize_nw fuel nwmap c rest :
+  finalize (S fuel) nwmap (Nw c :: rest) =
+  (match c with [] => s_nowiki_empty | _ => nowiki_quote nwmap c end) ++ finalize (S fuel) nwmap rest.
+Proof. reflexivity. Qed.
